@@ -368,6 +368,79 @@ Example C11_ex_reject :
   spec_shard_of 3 0 (-3074457345618258602)%Z = 1.
 Proof. repeat split; vm_compute; reflexivity. Qed.
 
+(* ---- deepening round 4 ---- *)
+
+(* the connections opened by successive runs of the loop come from pairwise DISTINCT ports (with
+   C11_connect_many_In: distinct free ports of the shard) *)
+Theorem C11_connect_many_nodup : forall n s lo hi pivots busy,
+  0 < n -> s < n -> lo <= hi -> hi <= u16_max ->
+  NoDup (open_many n s lo hi pivots busy).
+Proof. exact open_many_NoDup. Qed.
+
+(* at least as many runs as the shard has free ports: EVERY free port of the shard ends up carrying
+   a connection, however the pivots fall *)
+Theorem C11_connect_many_exhaust : forall n s lo hi pivots busy,
+  0 < n -> s < n -> lo <= hi -> hi <= u16_max ->
+  (List.length (free_ports n s lo hi busy) <= List.length pivots)%nat ->
+  Permutation (open_many n s lo hi pivots busy) (free_ports n s lo hi busy).
+Proof. exact open_many_exhaust. Qed.
+
+(* the driver asks some_pivot_gives with k = max 1 |spec_ports|: with that many pivots (or more)
+   the answer is closed -- "a port of the shard's set in [lo,hi] that is not busy"; so the driver's
+   `diff model-loop-never-gives-this-port` rests on this theorem, and every free port of the shard
+   IS the loop's outcome for some pivot (no port of the set is unreachable for the loop) *)
+Theorem C11_connect_some_pivot_all : forall n s lo hi busy port k,
+  0 < n -> s < n -> lo <= hi -> hi <= u16_max ->
+  (List.length (spec_ports n s lo hi) <= k)%nat ->
+  some_pivot_gives n s lo hi busy port k = true <->
+  lo <= port <= hi /\ port mod n = s /\ ~ In port busy.
+Proof. exact some_pivot_gives_all. Qed.
+
+(* shard_of_source_port (kind P; what the NODE computes from a connection's source port) has a
+   specification separate from the model: the unique r < n with port = q * n + r *)
+Theorem C11_source_port_spec : forall n port r, 0 < n ->
+  shard_of_source_port n port = r <-> r < n /\ exists q, port = q * n + r.
+Proof. exact source_port_spec. Qed.
+
+(* iterator and node-side assignment are inverse: a port of the range is produced for shard s (for
+   every pivot) iff the node files a connection from that port under shard s *)
+Theorem C11_source_port_iter : forall n s lo hi pivot p,
+  0 < n -> s < n -> lo <= hi -> hi <= u16_max -> lo <= p <= hi ->
+  In p (iter_ports n s lo hi pivot) <-> shard_of_source_port n p = s.
+Proof. exact source_port_iter. Qed.
+
+(* ShardInfo parsing at full strength (C11_parse_ok was only ->): Ok exactly for three present,
+   non-empty entries whose first strings parse as u16 / u16 / u8 with shard < nr_shards, and then
+   with exactly these three numbers *)
+Theorem C11_parse_ok_iff : forall se ne me shard nr msb,
+  parse_shard_info se ne me = Ok (shard, nr, msb) <->
+  exists s rs n rn m rm,
+    se = Some (s :: rs) /\ ne = Some (n :: rn) /\ me = Some (m :: rm) /\
+    parse_unsigned 65535 s = Some shard /\ parse_unsigned 65535 n = Some nr /\
+    parse_unsigned 255 m = Some msb /\ shard < nr.
+Proof. exact parse_shard_info_ok_iff. Qed.
+
+(* non-vacuity of the round-4 theorems: shard 3 of 5 in 65520..65535 has ports 65523 65528 65533 *)
+Example C11_ex_round4 :
+  (* 65523 held, two free ports, three runs: both free ports used, in pivot-dependent order *)
+  open_many 5 3 65520 65535 [2; 1; 0]%nat [65523] = [65533; 65528] /\
+  free_ports 5 3 65520 65535 [65523] = [65528; 65533] /\
+  List.length (free_ports 5 3 65520 65535 [65523]) = 2%nat /\
+  (* k = |spec_ports| = 3: free ports accepted; held, non-congruent, out-of-range ports refused *)
+  List.length (spec_ports 5 3 65520 65535) = 3%nat /\
+  some_pivot_gives 5 3 65520 65535 [65523] 65533 3 = true /\
+  some_pivot_gives 5 3 65520 65535 [65523] 65523 3 = false /\
+  some_pivot_gives 5 3 65520 65535 [65523] 65529 3 = false /\
+  some_pivot_gives 5 3 65520 65530 [65523] 65533 3 = false /\
+  (* too few pivots miss a free port: the premise on k is needed *)
+  some_pivot_gives 5 3 65520 65535 [65523] 65533 1 = false /\
+  shard_of_source_port 5 65528 = 3 /\ 65528 = 13105 * 5 + 3 /\
+  In 65528 (iter_ports 5 3 65520 65535 2) /\ shard_of_source_port 5 65529 = 4 /\
+  parse_shard_info (Some ["3"%string; "x"%string]) (Some ["+8"%string]) (Some ["12"%string]) = Ok (3, 8, 12) /\
+  parse_unsigned 65535 "+8" = Some 8 /\ parse_unsigned 255 "256" = None /\
+  parse_shard_info (Some ["3"%string]) (Some ["8"%string]) (Some ["256"%string]) = Err ParseIntError.
+Proof. repeat split; vm_compute; try reflexivity; tauto. Qed.
+
 Print Assumptions C11_shard_spec.
 Print Assumptions C11_draw_some.
 Print Assumptions C11_prop_iter_ok_iff.
@@ -406,3 +479,9 @@ Print Assumptions C11_connect_count_bounds.
 Print Assumptions C11_connect_accept_list.
 Print Assumptions C11_connect_accept_list_starved.
 Print Assumptions C11_accept_draw_complete.
+Print Assumptions C11_connect_many_nodup.
+Print Assumptions C11_connect_many_exhaust.
+Print Assumptions C11_connect_some_pivot_all.
+Print Assumptions C11_source_port_spec.
+Print Assumptions C11_source_port_iter.
+Print Assumptions C11_parse_ok_iff.
